@@ -109,6 +109,13 @@ def _sr(v):
     return v if isinstance(v, SR) else SR(v)
 
 
+def _scalar(r):
+    """0-d object arrays -> their element"""
+    if isinstance(r, _np.ndarray) and r.shape == () and r.dtype == object:
+        return r.item()
+    return r
+
+
 def _sc(v):
     return v
 
@@ -281,7 +288,10 @@ class _Linalg:
             return _np.linalg.norm(x, ord=ord, axis=axis, keepdims=keepdims)
         assert ord is None or ord == 2
         x = wrap(x)
-        s = _np.sum(x * x, axis=axis, keepdims=keepdims)
+        s = _scalar(_np.sum(x * x, axis=axis, keepdims=keepdims))
+        ue = ctx().unit_exprs
+        if ue and isinstance(s, SR) and s.c is None and simp(s.e).get_id() in ue:
+            return exact(1)
         return NP.sqrt(s)
 
     def solve(self, A, b):
@@ -519,7 +529,7 @@ class _NP:
     def sum(self, a, *args, **k):
         r = _np.sum(a, *args, **k)
         if isinstance(r, _np.ndarray) and r.dtype == object:
-            return r.view(SA)
+            return _scalar(r.view(SA))
         return r
 
     def max(self, a, *args, **k):
@@ -563,7 +573,7 @@ class _NP:
             return _np.einsum(spec, *ops, **k)
         ops = [wrap(o) for o in ops]
         r = _np.einsum(spec, *ops, **k)
-        return r.view(SA) if isinstance(r, _np.ndarray) else r
+        return _scalar(r.view(SA)) if isinstance(r, _np.ndarray) else r
 
     def cross(self, a, b, *args, **k):
         if not (_has_sym(a) or _has_sym(b)):
@@ -580,7 +590,7 @@ class _NP:
         if not (_has_sym(a) or _has_sym(b)):
             return _np.dot(a, b)
         r = _np.dot(wrap(a), wrap(b))
-        return r.view(SA) if isinstance(r, _np.ndarray) else r
+        return _scalar(r.view(SA)) if isinstance(r, _np.ndarray) else r
 
     def matmul(self, a, b):
         if not (_has_sym(a) or _has_sym(b)):
